@@ -6,7 +6,7 @@ META = dict(
     technique="TLC exhaustive model check of HeaderMap.tla (RequestHeader/ResponseHeader as ordered multimap with single-valued special slots and accumulating cookies, normalisation on/off; frame condition 'an operation on one name never changes the values or order of another' as an action property) + TLC-generated behaviours with the spec's observer results after every step replayed on the real header objects (B1)",
     design_ref="DESIGN.md §4 C29",
     text="HeaderMap.tla is model-checked for both header kinds and both normalisation modes (12 configurations: ordinary names in several spellings with Connection/Content-Length/Transfer-Encoding, slots, cookies and trailers). HeaderMapGen adds a history variable; TLC enumerates ALL operation sequences of length N over several operation alphabets (and seeded random longer ones over the whole alphabet) and writes each with All, Peek/PeekAll per queried spelling, typed getters, cookies and the expected read-back after every step. The Go harness performs each sequence on a real RequestHeader/ResponseHeader (random API variant per call) and compares Peek, PeekBytes, PeekAll, PeekKeys, All, VisitAll, Len, typed getters, cookies, Write->Read back (non-framing fields in order) and CopyTo with the spec after every step.",
-    note="Trusted: TLC, the Go toolchain, the JSON plumbing. Modelling decisions: for single-valued special names an empty value and an absent field are not distinguished in PeekAll; with normalisation off special names are only spelled canonically; values are benign tokens (no CR/LF: that is C05). Sequences longer than N are sampled (seeded), not enumerated.",
+    note="Trusted: TLC, the Go toolchain, the JSON plumbing. Modelling decisions: for single-valued special names an empty value and an absent field are not distinguished in PeekAll; with normalisation off a non-canonical spelling of a special name is only used in profile 5 (known finding F-C29-2); values are benign tokens (no CR/LF: that is C05). Sequences longer than N are sampled (seeded), not enumerated.",
 )
 
 
@@ -42,14 +42,14 @@ def run(ctx):
     out = open(path, "w")
     # exhaustive: every operation sequence of length N over the profile's op alphabet,
     # for request and response headers, normalisation on and off
-    plans = ctx.pick([(4, 1), (2, 2)], [(4, 1), (2, 2), (3, 3), (3, 4)])
+    plans = ctx.pick([(4, 1), (2, 3), (2, 4)], [(4, 1), (2, 2), (3, 3), (3, 4)])
     if smoke:
         plans = [(2, 2)]
     total_exh = 0
     for n, prof in plans:
         total_exh += _gen(ctx, out, "HeaderMapGen", {"N": n, "PROFILE": prof}, workers=4)
     # seeded random longer sequences over the whole alphabet
-    num, depth = ctx.pick((1200, 10), (20000, 12))
+    num, depth = ctx.pick((400, 10), (4000, 12))
     if smoke:
         num, depth = 300, 10
     nsim = _gen(ctx, out, "HeaderMapGen", {"N": depth, "PROFILE": 2}, workers=1,
@@ -57,6 +57,18 @@ def run(ctx):
     out.close()
     recs = ctx.go_test(".", ["c29_"], "^TestVerifC29", infile=path, timeout=1500)
     ctx.absorb(recs)
+    if not smoke:
+        # profile 5 (normalisation off + a special name in lower case) is replayed in a run of
+        # its own: its behaviours hit known finding F-C29-2 and must not use up the
+        # harness' cap on reported violations for the other profiles
+        n5 = ctx.pick(2, 3)
+        path5 = os.path.join(ctx.scratch, "c29_behaviours_p5.ndjson")
+        out5 = open(path5, "w")
+        total_exh += _gen(ctx, out5, "HeaderMapGen", {"N": n5, "PROFILE": 5}, workers=4)
+        out5.close()
+        plans = plans + [(n5, 5)]
+        recs = ctx.go_test(".", ["c29_"], "^TestVerifC29", infile=path5, timeout=900)
+        ctx.absorb(recs)
     ctx.traces_validated = ctx.evaluations
     ctx.exhaustive = False
     ctx.extra["exhaustive_behaviours"] = total_exh
@@ -64,7 +76,7 @@ def run(ctx):
     ctx.rule = ("one evaluation = one distinct (header kind, normalisation, operation sequence) replayed with all observers "
                 "compared after every step; exhaustive for (N ops, profile) in %s over 4 modes, plus %d seeded random "
                 "sequences of %d ops; non-trivial = the header holds >= 3 fields at some step" % (plans, nsim, depth))
-    ctx.assumptions = ["names: X-A/x-a/X-B and every special name (canonical; lower-case spellings only with normalisation on)",
+    ctx.assumptions = ["names: X-A/x-a/X-B and every special name (canonical; lower-case spellings with normalisation on, and content-type with normalisation off in profile 5)",
                        "values: fixed benign tokens per name class",
                        "PeekAll on single-valued special names: empty value = absent",
                        "exhaustive only up to the stated sequence length; longer sequences sampled with VERIF_SEED"]
